@@ -1128,7 +1128,7 @@ def _add_producers():
     def _folds(self, o, a):
         from rsatoolbox.inference.crossvalsets import (sets_k_fold, sets_leave_one_out_rdm, sets_k_fold_pattern,
                                                         sets_random, sets_of_k_pattern)
-        k = o['a'][0] % 5
+        k = o['a'][0] % 7
         pdesc = self._by(a, 'pattern', o['a'][1])
         rdesc = self._by(a, 'rdm', o['a'][2])
         gp = len(set(normlist(a.pattern_descriptors[pdesc])))
@@ -1141,8 +1141,17 @@ def _add_producers():
             tr, te, ce = sets_k_fold_pattern(a, pdesc, k=min(2, gp), random=o['flag'])
         elif k == 3:
             tr, te, ce = sets_random(a, n_rdm=0 if gr < 2 else 1, n_pattern=0 if gp < 2 else 1, n_cv=2, pattern_descriptor=pdesc, rdm_descriptor=rdesc)
-        else:
+        elif k == 4:
             tr, te, ce = sets_of_k_pattern(a, pattern_descriptor=pdesc, k=1, random=o['flag'])
+        elif k == 5:
+            from rsatoolbox.inference.crossvalsets import sets_k_fold_rdm
+            tr, te, ce = sets_k_fold_rdm(a, k_rdm=max(1, min(2, gr)), random=True, rdm_descriptor=rdesc)
+        else:
+            from rsatoolbox.inference.crossvalsets import sets_of_k_rdm, sets_leave_one_out_pattern
+            if gr >= 2:
+                tr, te, ce = sets_of_k_rdm(a, rdm_descriptor=rdesc, k=1, random=True)
+            else:
+                tr, te, ce = sets_leave_one_out_pattern(a, pdesc)
         return [tr[0][0], te[-1][0]]
     _producer('sets_k_fold', _folds)
 
